@@ -109,9 +109,13 @@ func init() {
 	extra := []string{"-5", "-.5", "-ff", "--", "-x", "a=b", "k:v", "-5.5e1", "-v", "--name", "-é", "-0.5", "-007", "-0", "-9", "-1e3", "-00", "-9.99", "on", "off", "-5s", "-1h2m", "-1f", "5s", "-1.5s", "-42", "-4", "-4.5", "-44", "caf\xe9", "\xff", "`code`", "`a b` c"}
 
 	body := func(c *explore.Ctx) {
-		part := c.Choose(2)
+		part := c.Choose(3)
 		if part == 1 {
 			c02Clusters(c)
+			return
+		}
+		if part == 2 {
+			c02Added(c)
 			return
 		}
 		kind := c.Choose(len(c02Kinds))
@@ -236,7 +240,7 @@ func init() {
 		Rule: "option types {string, int, float64, []string, map[string]string, func(string), int base 16, []int, []*int, a bool-kinded Unmarshaler, time.Duration} (a flag with the digit short name -4 is declared next to it) x short name {x, é (2 bytes), € (3 bytes)} x optional-argument {no, yes} x PassDoubleDash {off, on} x context {alone, between two other options, before a plain word} x {fresh parser, parser that parsed [sync -x] before, where sync declares the same short letter as a flag} " +
 			"x value V in every string of length <= 3 (quick) / <= 4 (thorough) over {v = - . 5 0 \" \\ é : space f I} plus 33 hand-picked values (negative numbers in three notations, --, option-looking words, bytes that are not valid UTF-8, back-quoted text); in the simplest cell also with the option declared in a plain group inside a namespaced group (long name --db.name); for each cell all admissible spellings among " +
 			"{-xV, -x=V, -x V, --name=V, --name V} x {V, V as a double-quoted Go literal} are parsed and must give one identical outcome (all values, callback log, remaining arguments, error type); " +
-			"plus every flag cluster of <= 4 over {a (bool), b ([]bool), é (func())} and every cluster ending in an argument-taking option (x or é) against its separated form; distinct = distinct (type, short, outcome)",
+			"plus a string option handed over with (*Group).AddOption (5 values x all spellings, plain and quoted); plus every flag cluster of <= 4 over {a (bool), b ([]bool), é (func())} and every cluster ending in an argument-taking option (x or é) against its separated form; distinct = distinct (type, short, outcome)",
 		Assumptions:  []string{"separate-token form demanded only where the statement allows it: not for optional-argument options, not when V has option syntax unless V is a clear numeral of the signed numeric option's own type and base, not for -- under PassDoubleDash", "-xV not demanded when V is empty or starts with '='"},
 		RequiredHits: []string{"agreeing-success", "agreeing-error", "spellings=10", "cluster-compared", "cluster-with-argument"},
 		Bound:        [2]string{"values <= 3 characters", "values <= 4 characters"},
@@ -332,4 +336,54 @@ func c02Clusters(c *explore.Ctx) {
 	if o1 != o2 {
 		c.Fail(fmt.Sprintf("cluster-vs-separated|tail=%d", tail), map[string]interface{}{"clustered": o1, "separated": o2})
 	}
+}
+
+// c02Added: an option handed to the library with (*Group).AddOption is spelled like any other.
+func c02Added(c *explore.Ctx) {
+	vals := []string{"v", "a b", "", "x=y", "é"}
+	V := vals[c.Choose(len(vals))]
+	Q := strconv.Quote(V)
+	forms := [][]string{{"--added=" + V}, {"--added", V}, {"-A=" + V}, {"-A", V}, {"--added=" + Q}, {"--added", Q}, {"-A=" + Q}, {"-A" + Q}}
+	if V != "" {
+		forms = append(forms, []string{"-A" + V})
+	}
+	c.Describe(func() interface{} {
+		return map[string]interface{}{"part": "option added with AddOption", "V": V}
+	})
+	first := ""
+	for i, f := range forms {
+		if strings.HasPrefix(V, "=") && len(f) == 1 && strings.HasPrefix(f[0], "-A") && !strings.HasPrefix(f[0], "-A=") {
+			continue
+		}
+		var base struct {
+			Verbose bool `short:"v"`
+		}
+		p := flags.NewParser(&base, flags.None)
+		var s string
+		p.Command.Group.Find("Application Options").AddOption(&flags.Option{LongName: "added", ShortName: 'A'}, &s)
+		obs := ""
+		func() {
+			defer func() {
+				if r := recover(); r != nil {
+					obs = fmt.Sprint("panic: ", r)
+				}
+			}()
+			rest, err := p.ParseArgs(f)
+			obs = fmt.Sprintf("%s|%q|%q", errType(err), s, rest)
+		}()
+		if strings.HasPrefix(obs, "panic") {
+			c.Fail("panic|added-option", obs)
+			return
+		}
+		if i == 0 {
+			first = obs
+			c.Outcome("added", obs)
+			continue
+		}
+		if obs != first {
+			c.Fail("pair=added-option|"+c02ValueClass(V, ""), map[string]interface{}{"argv_a": forms[0], "outcome_a": first, "argv_b": f, "outcome_b": obs})
+			return
+		}
+	}
+	c.Hit("added-option-spellings")
 }
